@@ -650,6 +650,18 @@ func (r *runner) run() {
 		case "wit":
 			r.clock.Witness(serf.LamportTime(r.k.times[st.Int("v")]))
 			r.tr.emit(st, 0)
+		case "burst":
+			// events pushed into inCh WITHOUT waiting for them to be consumed; the schedule goes on with the shutdown,
+			// so some are still buffered in streamCh / inCh when the shutdown channel closes
+			if !up {
+				h.Die("schedule %d: burst while down", r.s.ID)
+			}
+			r.tr.emit(st, 0)
+			for _, x := range st.List("evs") {
+				m, _ := x.(map[string]interface{})
+				r.inCh <- r.mkEvent(h.Step(m))
+				r.given++
+			}
 		case "adv":
 			serf.VerifFS.Advance(time.Duration(st.Int("d")) * 100 * time.Millisecond)
 			r.tr.emit(st, 0)
